@@ -209,6 +209,18 @@ func c04r17(c *Ctx, r *Report) {
 					continue
 				}
 				cl, ok := ret.Results[1].(*ast.CompositeLit)
+				if id, isId := ret.Results[1].(*ast.Ident); !ok && isId {
+					// a local variable defined in the clause by a composite literal
+					for _, st2 := range cc.Body {
+						as, isAs := st2.(*ast.AssignStmt)
+						if !isAs || len(as.Lhs) != 1 || len(as.Rhs) != 1 {
+							continue
+						}
+						if l, isL := as.Lhs[0].(*ast.Ident); isL && l.Name == id.Name {
+							cl, ok = as.Rhs[0].(*ast.CompositeLit)
+						}
+					}
+				}
 				if !ok {
 					continue
 				}
@@ -2474,6 +2486,91 @@ func c20r18(c *Ctx, r *Report) {
 	r.floor("handlers that toggle the preview or replace its command", n, 4)
 }
 
+// c18r16: doActions stops at a terminating action ("A terminal action performed. We should stop processing
+// more."): what is accepted, printed and recorded is the state at that moment. The re-dispatch of the `focus`
+// actions at the end of the same function is part of "more" (D97: it was not guarded: with
+// `enter:down+accept` and `focus:change-query(FOCUS)` the history file and --print-query got FOCUS instead of the
+// query that was typed).
+func c18r16(c *Ctx, r *Report) {
+	l := c.L
+	r.rule("C18-R16", "A (nothing runs after the terminating action)", "P1",
+		"in the closure of Terminal.Loop that dispatches an action list and re-dispatches the focus actions, every block that jumps back to another round of dispatch is reached only on paths that have read the variable `looping` as true",
+		"actions bound to the focus event run after accept / abort and change the query that is recorded in the history (and printed)")
+	loop := l.Fn("fzf", "(*Terminal).Loop")
+	fKm := l.Field("fzf", "Terminal", "keymap")
+	kFocus := l.Const("tui", "Focus")
+	if loop == nil || fKm == nil || kFocus == nil {
+		r.unest("anchors", token.NoPos, nil, "anchors Terminal.Loop / Terminal.keymap / tui.Focus", "cannot resolve")
+		return
+	}
+	focusVal, _ := constantInt64(kFocus)
+	cc := cdCache{}
+	n := 0
+	for _, fn := range withClosures(loop) {
+		if fn == loop {
+			continue
+		}
+		// the closure that looks up the key map entry of the focus event with a comma-ok lookup and loops
+		var oks []ssa.Value
+		eachInstr(fn, func(in ssa.Instruction) {
+			ex, ok := in.(*ssa.Extract)
+			if !ok || ex.Index != 1 {
+				return
+			}
+			lk, ok := ex.Tuple.(*ssa.Lookup)
+			if !ok || !lk.CommaOk {
+				return
+			}
+			if f, _ := loadedField(lk.X); f != fKm {
+				return
+			}
+			// the entry of the focus event
+			kc, ok := lk.Index.(*ssa.Call)
+			if !ok || len(kc.Call.Args) != 1 || !isConstInt(kc.Call.Args[0], focusVal) {
+				return
+			}
+			oks = append(oks, ex)
+		})
+		if len(oks) == 0 {
+			continue
+		}
+		for _, b := range fn.Blocks {
+			if len(b.Instrs) == 0 || len(b.Succs) != 1 || !b.Succs[0].Dominates(b) {
+				continue // not a back edge
+			}
+			conds := cc.of(b.Instrs[0])
+			onOk := false
+			for _, okv := range oks {
+				if conds[okv] {
+					onOk = true
+				}
+			}
+			if !onOk {
+				continue
+			}
+			n++
+			// every path to the jump has seen `looping` true (control dependence alone does not say with which outcome)
+			pc := pathConds(fn)
+			guarded, _ := pc.Implies(b, func(lits []Lit) bool {
+				for _, lt := range lits {
+					if !lt.Val {
+						continue
+					}
+					if u, ok := lt.Atom.(*ssa.UnOp); ok && u.Op == token.MUL {
+						if nm, ok := u.X.(interface{ Name() string }); ok && nm.Name() == "looping" {
+							return true
+						}
+					}
+				}
+				return false
+			})
+			r.check(guarded, fmt.Sprintf("%s:re-dispatch #%d of event actions happens only while looping", relName(rootFn(fn)), n), b.Instrs[len(b.Instrs)-1].Pos(), fn,
+				"under `looping`", "the actions of the focus event are dispatched even after a terminating action has cleared `looping`")
+		}
+	}
+	r.floor("re-dispatches of event actions in Terminal.Loop", n, 1)
+}
+
 func round10(c *Ctx, r *Report, prop string) {
 	switch prop {
 	case "C01":
@@ -2495,6 +2592,7 @@ func round10(c *Ctx, r *Report, prop string) {
 		c09r23(c, r)
 		c09r24(c, r)
 		c09r25(c, r)
+		c18r16(c, r) // the accepted state is the state at the accepting action
 	case "C10":
 		c10r13(c, r)
 		c10r14(c, r)
@@ -2524,6 +2622,8 @@ func round10(c *Ctx, r *Report, prop string) {
 	case "C17":
 		c17r28(c, r)
 		c17r29(c, r)
+	case "C18":
+		c18r16(c, r)
 	case "C19":
 		c19r16(c, r)
 	case "C20":
